@@ -5,6 +5,7 @@ import (
 	"context"
 	"encoding/hex"
 	"fmt"
+	"github.com/nspcc-dev/bbolt"
 	"hash/fnv"
 	"os"
 	"path/filepath"
@@ -12,6 +13,7 @@ import (
 	"sort"
 	"strings"
 	"sync"
+	"sync/atomic"
 	"testing"
 
 	"github.com/nspcc-dev/neo-go/pkg/core/dao"
@@ -43,6 +45,9 @@ const (
 const sigCutGhost = "seek-with-prefix-trimming:lower-layer-key-equal-to-trimmed-last-memory-key-omitted"
 
 var backendKinds = []string{"mem", "bolt", "leveldb"}
+
+// boltOpens counts BoltDB opens: every second one uses a bucket of its own.
+var boltOpens atomic.Int64
 
 // Key universe: heads select the map inside the memory layers (0x70/0x71 go to
 // the contract-storage map, everything else to the generic one) and, for the
@@ -194,6 +199,29 @@ func openBase(kind, dir string) (storage.Store, error) {
 	case "mem":
 		return storage.NewMemoryStore(), nil
 	case "bolt":
+		if boltOpens.Add(1)%2 == 0 {
+			// a store of its own bucket in a database file whose default bucket
+			// belongs to another store (and holds decoy keys that must never show)
+			def, err := storage.NewBoltDBStore(dbconfig.BoltDBOptions{FilePath: filepath.Join(dir, "bolt.db")})
+			if err != nil {
+				return nil, err
+			}
+			decoy := map[string][]byte{}
+			for i := 0; i < 40; i++ {
+				decoy[string([]byte{byte(i * 6), byte(i), 0x7f})] = []byte{0xde, 0xc0, byte(i)}
+			}
+			if err := def.PutChangeSet(decoy, map[string][]byte{"\x70decoy": {1}, "\x70": {2}}); err != nil {
+				return nil, err
+			}
+			if err := def.Close(); err != nil {
+				return nil, err
+			}
+			db, err := bbolt.Open(filepath.Join(dir, "bolt.db"), 0o600, nil)
+			if err != nil {
+				return nil, err
+			}
+			return storage.NewBoltDBStoreFromBucket(db, []byte("side"))
+		}
 		return storage.NewBoltDBStore(dbconfig.BoltDBOptions{FilePath: filepath.Join(dir, "bolt.db")})
 	default:
 		return storage.NewLevelDBStore(dbconfig.LevelDBOptions{DataDirectoryPath: filepath.Join(dir, "ldb")})
